@@ -16,12 +16,12 @@ CLANG_FLAGS = ['-std=c++20', '-I' + REPO + '/include', '-I' + REPO, '-I' + ROOT 
 class Job:
     def __init__(s, name, unit, entry, args=(), merge=(), reach=(), bounds='', engine='S', timeout=600, check_ub=True,
                  enum_cap=64, max_paths=200000, max_steps=5_000_000, kf=None, native=True, solver_timeout_ms=120000,
-                 expect_violation=None, extra_units=(), cbmc=None, defines=(), findings=(), redirect=None, snippets=None):
+                 expect_violation=None, extra_units=(), cbmc=None, defines=(), findings=(), redirect=None, snippets=None, stream_sink=False):
         s.name = name; s.unit = unit; s.entry = entry; s.args = list(args); s.merge = list(merge); s.reach = list(reach)
         s.bounds = bounds; s.engine = engine; s.timeout = timeout; s.check_ub = check_ub; s.enum_cap = enum_cap
         s.max_paths = max_paths; s.max_steps = max_steps; s.kf = dict(kf or {}); s.native = native
         s.solver_timeout_ms = solver_timeout_ms; s.expect_violation = expect_violation; s.extra_units = list(extra_units)
-        s.cbmc = cbmc; s.defines = list(defines); s.findings = list(findings); s.redirect = dict(redirect or {}); s.snippets = dict(snippets or {})
+        s.cbmc = cbmc; s.defines = list(defines); s.findings = list(findings); s.redirect = dict(redirect or {}); s.snippets = dict(snippets or {}); s.stream_sink = stream_sink
 
 def extract_function(path, name):
     """text of the definition of function `name` in a /repo source file (from the start of its declaration line to the matching
@@ -89,6 +89,7 @@ def run_job_S(job, lls):
                          max_steps=job.max_steps, enum_cap=job.enum_cap)
         E.kf_mode = dict(job.kf)
         symex.set_redirects(E, job.redirect)
+        E.stream_sink = job.stream_sink
         symex.run_ctors(E)
         viols = []; statuses = {}; samples = []; paths = [0]; steps = [0]
         budget_hit = []
